@@ -120,8 +120,9 @@ func zvNbrByName(n string) zvNbr {
 }
 
 // zvC31Replay runs one history. Oracle clauses are evaluated for the LAST event
-// only (prefixes are histories of their own); extend runs the silent extension.
-func zvC31Replay(hist []string, extend bool, trace bool) (obs zvC31Obs, viols []zvC31Viol, status vsched.Status, crash string) {
+// only (prefixes are histories of their own).
+// extendIf decides, given the canonical state reached, whether the silent extension is run.
+func zvC31Replay(hist []string, extendIf func(canon string) bool, trace bool) (obs zvC31Obs, viols []zvC31Viol, status vsched.Status, crash string) {
 	viol := func(sig map[string]string, f string, a ...any) {
 		viols = append(viols, zvC31Viol{sig, fmt.Sprintf(f, a...)})
 	}
@@ -219,7 +220,7 @@ func zvC31Replay(hist []string, extend bool, trace bool) (obs zvC31Obs, viols []
 			}
 		}
 		// ---- bounded liveness: everybody falls silent
-		if extend && len(obs.Adj) > 0 {
+		if len(obs.Adj) > 0 && extendIf != nil && extendIf(obs.Canon) {
 			quiet := 9 + neighborDownTimeoutS + 3
 			obs.QuietFor = quiet
 			vsched.Advance(time.Duration(quiet) * time.Second)
@@ -245,6 +246,54 @@ func zvC31Hash(h []string) int {
 
 var zvC31Required = []string{"up_reached", "down_by_unlisting", "down_by_timeout", "removed_after_down", "regen_with_up", "regen_without_up", "first_hello_lists_us", "quiet_extension_runs", "quiet_from_init", "quiet_from_up", "two_up"}
 
+// zvC31Cover bumps the coverage counters for one evaluated transition (independent of the verdicts).
+func zvC31Cover(r *vh.Run, hist []string, obs zvC31Obs) {
+	last := ""
+	if len(hist) > 0 {
+		last = hist[len(hist)-1]
+	}
+	nUp := 0
+	for _, a := range obs.Adj {
+		if a.Status == packet.P2PAdjStateUp {
+			nUp++
+		}
+	}
+	if nUp > 0 {
+		r.Count("up_reached", 1)
+	}
+	if nUp > 1 {
+		r.Count("two_up", 1)
+	}
+	for _, b := range obs.Prev {
+		found := false
+		for _, a := range obs.Adj {
+			if a.Sys == b.Sys {
+				found = true
+				if b.Status == packet.P2PAdjStateUp && a.Status == packet.P2PAdjStateDown {
+					if strings.HasPrefix(last, "hello:") {
+						r.Count("down_by_unlisting", 1)
+					} else {
+						r.Count("down_by_timeout", 1)
+					}
+				}
+			}
+		}
+		if !found && b.Status == packet.P2PAdjStateDown {
+			r.Count("removed_after_down", 1)
+		}
+	}
+	if len(hist) == 1 && strings.Contains(last, zvTLVListsUs) {
+		r.Count("first_hello_lists_us", 1)
+	}
+	if last == zvC31Regen {
+		if nUp > 0 {
+			r.Count("regen_with_up", 1)
+		} else {
+			r.Count("regen_without_up", 1)
+		}
+	}
+}
+
 func TestVerifC31(t *testing.T) {
 	r := vh.Start(t, "C31")
 	defer r.Finish()
@@ -256,7 +305,7 @@ func TestVerifC31(t *testing.T) {
 	a2 := zvC31Alphabet(zvNbr1, zvNbr2)
 	r.Rule(fmt.Sprintf("explicit-state BFS over histories of hellos (5 three-way TLV variants x holding time {3,9}), clock +1s/+10s and LSP regeneration on a real Server under the virtual runtime (bound 0): "+
 		"one neighbour (%d events) to closure of the canonical state (adjacency state, time to expiry, time since state change, reference bookkeeping; all relative), two neighbours on two circuits (%d events) to depth %d; "+
-		"from every transition a silent extension of 132 s; non-trivial = distinct canonical states", len(a1), len(a2), depth2))
+		"from every reached canonical state a silent extension of 132 s; non-trivial = distinct canonical states", len(a1), len(a2), depth2))
 	r.Require(zvC31Required...)
 	r.Extra("depth_two_neighbours", depth2)
 
@@ -276,7 +325,7 @@ func TestVerifC31(t *testing.T) {
 	if r.IsReplay() {
 		var c zvC31Case
 		r.ReplayCase(&c)
-		obs, viols, st, diag := zvC31Replay(c.Hist, true, true)
+		obs, viols, st, diag := zvC31Replay(c.Hist, func(string) bool { return true }, true)
 		report(c.Alphabet, c.Hist, viols, st, diag)
 		fmt.Printf("replay %v: %+v\n", c.Hist, obs)
 		for _, k := range zvC31Required {
@@ -285,72 +334,38 @@ func TestVerifC31(t *testing.T) {
 		return
 	}
 
-	step := func(alpha string, prefix []string, shardExt bool) func(h []string) (string, []string, bool) {
+	// The silent extension is run once per canonical state (per BFS).
+	step := func(alpha string, prefix []string, shared bool) func(h []string) (string, []string, bool) {
 		en := a1
 		if alpha == "two" {
 			en = a2
 		}
+		extended := map[string]bool{}
 		return func(h []string) (string, []string, bool) {
 			hist := append(append([]string{}, prefix...), h...)
-			extend := !shardExt || r.Mine(zvC31Hash(hist))
-			obs, viols, st, diag := zvC31Replay(hist, extend, false)
-			if extend {
+			mine := !shared || r.Mine(zvC31Hash(hist))
+			obs, viols, st, diag := zvC31Replay(hist, func(canon string) bool {
+				if extended[canon] {
+					return false
+				}
+				extended[canon] = true
+				return !shared || r.Mine(zvC31Hash([]string{canon}))
+			}, false)
+			if mine {
 				r.Eval(1)
 			}
-			if extend || st != vsched.Completed {
-				report(alpha, hist, viols, st, diag)
-			}
 			if st != vsched.Completed {
+				report(alpha, hist, viols, st, diag)
 				return "crashed:" + strings.Join(hist, "|"), nil, false
 			}
-			if !extend {
-				return obs.Canon, en, true // another shard evaluates and counts this transition
-			}
-			// coverage counters (independent of the verdicts)
-			last := ""
-			if len(hist) > 0 {
-				last = hist[len(hist)-1]
-			}
-			nUp := 0
-			for _, a := range obs.Adj {
-				if a.Status == packet.P2PAdjStateUp {
-					nUp++
-				}
-			}
-			if nUp > 0 {
-				r.Count("up_reached", 1)
-			}
-			if nUp > 1 {
-				r.Count("two_up", 1)
-			}
-			// what did the last event do?
-			for _, b := range obs.Prev {
-				found := false
-				for _, a := range obs.Adj {
-					if a.Sys == b.Sys {
-						found = true
-						if b.Status == packet.P2PAdjStateUp && a.Status == packet.P2PAdjStateDown {
-							if strings.HasPrefix(last, "hello:") {
-								r.Count("down_by_unlisting", 1)
-							} else {
-								r.Count("down_by_timeout", 1)
-							}
-						}
+			if mine || obs.QuietFor > 0 {
+				var keep []zvC31Viol
+				for _, v := range viols {
+					if mine || v.sig["clause"] == "silent-neighbour-never-removed" {
+						keep = append(keep, v)
 					}
 				}
-				if !found && b.Status == packet.P2PAdjStateDown {
-					r.Count("removed_after_down", 1)
-				}
-			}
-			if len(hist) == 1 && strings.Contains(last, zvTLVListsUs) {
-				r.Count("first_hello_lists_us", 1)
-			}
-			if last == zvC31Regen {
-				if nUp > 0 {
-					r.Count("regen_with_up", 1)
-				} else {
-					r.Count("regen_without_up", 1)
-				}
+				report(alpha, hist, keep, st, diag)
 			}
 			if obs.QuietFor > 0 {
 				r.Count("quiet_extension_runs", 1)
@@ -363,28 +378,47 @@ func TestVerifC31(t *testing.T) {
 					}
 				}
 			}
+			if !mine {
+				return obs.Canon, en, true // another shard evaluates and counts this transition
+			}
+			zvC31Cover(r, hist, obs)
 			r.Outcome(obs.Canon)
 			// a violating state is still expanded: its successors are states of their own (only a crashed run is pruned)
 			return obs.Canon, en, true
 		}
 	}
 
-	// (1) one neighbour, to closure; every shard walks the same (small) state graph, the silent extensions are dealt out
-	b1 := vh.BFS[string]{R: r, Label: "one-neighbour", Step: step("one", nil, true)}
-	states, trans, closed := b1.Explore()
-	if sh, _ := r.Shard(); sh == 0 {
-		r.Nontrivial(states)
-		r.Extra("one_neighbour_states", states)
-		r.Extra("one_neighbour_transitions", trans)
-	} else {
-		// the same graph was walked by shard 0: do not count it again in the merged report
-		r.States(-states)
-		r.Transitions(-trans)
-		r.Traces(-trans)
+	// (0) determinism self-check and directed histories: one known history per coverage counter, evaluated like any
+	// other (so that a run cut short by its time budget is capped, not vacuous)
+	nn, lu := "hello:N1:"+zvTLVNoNeighbor, "hello:N1:"+zvTLVListsUs
+	twoUp := []string{nn + ":9", lu + ":9", "hello:N2:" + zvTLVNoNeighbor + ":9", "hello:N2:" + zvTLVListsUs + ":9"}
+	ageOut := []string{nn + ":3", lu + ":3"}
+	for i := 0; i < 13; i++ {
+		ageOut = append(ageOut, zvC31T10)
 	}
-	r.Extra("one_neighbour_closed", closed)
-	// (2) two neighbours, bounded depth, from two roots (initial state; N1 already Up), subtrees dealt out by first event
-	roots := [][]string{nil, {"hello:N1:" + zvTLVNoNeighbor + ":9", "hello:N1:" + zvTLVListsUs + ":9"}}
+	directed := [][]string{
+		twoUp,
+		append(append([]string{}, twoUp...), zvC31Regen),
+		{zvC31Regen},
+		{lu + ":9"},
+		{nn + ":9", lu + ":9", nn + ":9"},
+		{nn + ":3", lu + ":3", zvC31T10},
+		ageOut,
+	}
+	{
+		o1, _, _, _ := zvC31Replay(ageOut[:6], func(string) bool { return true }, false)
+		o2, _, _, _ := zvC31Replay(ageOut[:6], func(string) bool { return true }, false)
+		if fmt.Sprintf("%+v", o1) != fmt.Sprintf("%+v", o2) {
+			r.Fatalf("replaying the same history twice gave different observations:\n%+v\n%+v", o1, o2)
+		}
+	}
+	for i, h := range directed {
+		if r.Mine(i) {
+			step("two", h, false)(nil)
+		}
+	}
+	// (1) two neighbours, bounded depth, from two roots (initial state; N1 already Up), subtrees dealt out by first event
+	roots := [][]string{nil, {nn + ":9", lu + ":9"}}
 	idx := 0
 	for _, root := range roots {
 		for _, e1 := range a2 {
@@ -397,5 +431,15 @@ func TestVerifC31(t *testing.T) {
 			s2, _, _ := b2.Explore()
 			r.Nontrivial(s2)
 		}
+	}
+	// (2) one neighbour, to closure of the canonical state (one work item: the graph is small)
+	idx++
+	if r.Mine(idx) {
+		b1 := vh.BFS[string]{R: r, Label: "one-neighbour", Step: step("one", nil, false)}
+		states, trans, closed := b1.Explore()
+		r.Nontrivial(states)
+		r.Extra("one_neighbour_states", states)
+		r.Extra("one_neighbour_transitions", trans)
+		r.Extra("one_neighbour_closed", closed)
 	}
 }
